@@ -1,0 +1,226 @@
+//go:build verif
+
+package bttest
+
+// Contracts for property C03 (ReadRows / SampleRowKeys): range validation, range merging,
+// chunk building, the scan loops. Checked by /verif/govc. Comments only.
+
+// ---------------------------------------------------------------------------------------------
+// validation.go
+// ---------------------------------------------------------------------------------------------
+
+// badRange: the API-level meaning of "this RowRange is invalid" (property C03 / validateRowRanges doc):
+// both start kinds non-empty, or both end kinds non-empty, or some non-empty start > some non-empty end.
+//@ spec keyGT(a []byte, b []byte) bool = len(a) != 0 && len(b) != 0 && bytesLess(b, a)
+//@ spec badRange(skC []byte, skO []byte, ekC []byte, ekO []byte) bool = (len(skC) != 0 && len(skO) != 0) || (len(ekC) != 0 && len(ekO) != 0) || keyGT(skC, ekC) || keyGT(skO, ekO) || keyGT(skC, ekO) || keyGT(skO, ekC)
+
+//@ func messageOnInvalidKeyRanges
+//@   property C03
+//@   pure
+//@   ensures (result != "") <==> badRange(startKeyClosed, startKeyOpen, endKeyClosed, endKeyOpen)
+
+// API-level accessors of a RowRange (what the oneof carries; empty when the other kind / nothing is set).
+//@ spec rrSkC(rr *btpb.RowRange) []byte = typeis(rr.StartKey, *btpb.RowRange_StartKeyClosed) ? as(rr.StartKey, *btpb.RowRange_StartKeyClosed).StartKeyClosed : nil
+//@ spec rrSkO(rr *btpb.RowRange) []byte = typeis(rr.StartKey, *btpb.RowRange_StartKeyOpen) ? as(rr.StartKey, *btpb.RowRange_StartKeyOpen).StartKeyOpen : nil
+//@ spec rrEkC(rr *btpb.RowRange) []byte = typeis(rr.EndKey, *btpb.RowRange_EndKeyClosed) ? as(rr.EndKey, *btpb.RowRange_EndKeyClosed).EndKeyClosed : nil
+//@ spec rrEkO(rr *btpb.RowRange) []byte = typeis(rr.EndKey, *btpb.RowRange_EndKeyOpen) ? as(rr.EndKey, *btpb.RowRange_EndKeyOpen).EndKeyOpen : nil
+//@ spec rrBad(rr *btpb.RowRange) bool = badRange(rrSkC(rr), rrSkO(rr), rrEkC(rr), rrEkO(rr))
+
+//@ func validateRowRanges
+//@   property C03
+//@   ensures (req == nil || req.Rows == nil) ==> result == nil
+//@   ensures req != nil && req.Rows != nil ==> ((result != nil) <==> (exists i :: 0 <= i < len(req.Rows.RowRanges) && rrBad(req.Rows.RowRanges[i])))
+//@   ensures result != nil ==> uf_grpcCode(result) == codes.InvalidArgument
+//@   loop 1 invariant forall i :: 0 <= i <= idx1 ==> !rrBad(rowRanges[i])
+
+// ---------------------------------------------------------------------------------------------
+// inmem.go: range merging
+// ---------------------------------------------------------------------------------------------
+
+// inR(start, end, x): key x lies in the simple range [start, end), empty end = +infinity.
+//@ spec inR(st []byte, en []byte, x []byte) bool = !bytesLess(x, st) && (len(en) == 0 || bytesLess(x, en))
+//@ spec inSR(sr simpleRange, x []byte) bool = inR(sr.start, sr.end, x)
+
+//@ func mergeSimpleRanges
+//@   property C03
+//@   logical x []byte
+//@   modifies elems(srs)
+// (U) union preserved, for the rigid key x:  (exists j: inSR(result[j],x)) <==> (exists i: inSR(old(srs[i]),x)),
+//     stated as its two directions with the hypothesis side universally quantified (better triggers at call sites)
+//@   ensures forall i :: 0 <= i < len(srs) && inSR(old(srs[i]), x) ==> (exists j :: 0 <= j < len(result) && inSR(result[j], x))
+//@   ensures forall j :: 0 <= j < len(result) && inSR(result[j], x) ==> (exists i :: 0 <= i < len(srs) && inSR(old(srs[i]), x))
+//@   ensures forall i, j :: 0 <= i < j < len(result) ==> !bytesLess(result[j].start, result[i].start)
+//@   ensures forall i, j :: 0 <= i < j < len(result) ==> len(result[i].end) > 0 && bytesLess(result[i].end, result[j].start)
+//@   ensures len(result) <= len(srs) && (len(srs) > 0 ==> len(result) > 0)
+//@   ensures obj(result) == obj(srs)
+//@   loop 1 invariant srs == old(srs)
+//@   loop 1 invariant (idx1 == -1 && last == 0) || (0 <= last && last <= idx1)
+// output prefix 0..last: (S) and (D)
+//@   loop 1 invariant forall i, j :: 0 <= i < j <= last ==> !bytesLess(srs[j].start, srs[i].start)
+//@   loop 1 invariant forall i :: 0 <= i < last ==> len(srs[i].end) > 0
+//@   loop 1 invariant forall i, j :: 0 <= i < j <= last ==> bytesLess(srs[i].end, srs[j].start)
+// unprocessed tail idx1+1..: still sorted by start
+//@   loop 1 invariant forall i, j :: idx1 < i < j < len(srs) ==> !bytesLess(srs[j].start, srs[i].start)
+// prefix vs tail (stated for every prefix element so that no transitivity chain is needed)
+//@   loop 1 invariant forall k, j :: 0 <= k <= last && idx1 < j < len(srs) ==> !bytesLess(srs[j].start, srs[k].start)
+//@   loop 1 invariant forall k, j :: 0 <= k < last && idx1 < j < len(srs) ==> bytesLess(srs[k].end, srs[j].start)
+// union (for the rigid key x): prefix and tail together cover exactly what the input covered; two directions
+//@   loop 1 invariant (exists j :: ((0 <= j && j <= last) || (idx1 < j && j < len(srs))) && inSR(srs[j], x)) ==> (exists i :: 0 <= i < len(srs) && inSR(old(srs[i]), x))
+//@   loop 1 invariant (exists i :: 0 <= i < len(srs) && inSR(old(srs[i]), x)) ==> (exists j :: ((0 <= j && j <= last) || (idx1 < j && j < len(srs))) && inSR(srs[j], x))
+
+// --- mergeRowRanges -------------------------------------------------------------------------
+// API meaning of a RowRange: inRR(rr, x) <==> key x lies in the range (closed / open / unset ends).
+// Convention: an end_key_open that is set but empty means "unbounded" (empty end key = +infinity, as in simpleRange).
+// The emulator encodes "x > k" as "x >= k + 0x00" and "x <= k" as "x < k + 0x00"; the link is the successor lemma
+//     forall k, x :: bytesLess(k, x) <==> !bytesLess(x, k + "\x00")
+// which govc proves in its byte-string theory (theory.bytestrings/lemma[successor-*]); it is NOT assumed here.
+//@ spec rrStartOK(rr *btpb.RowRange, x []byte) bool = typeis(rr.StartKey, *btpb.RowRange_StartKeyClosed) ? !bytesLess(x, as(rr.StartKey, *btpb.RowRange_StartKeyClosed).StartKeyClosed) : (typeis(rr.StartKey, *btpb.RowRange_StartKeyOpen) ? bytesLess(as(rr.StartKey, *btpb.RowRange_StartKeyOpen).StartKeyOpen, x) : true)
+//@ spec rrEndOK(rr *btpb.RowRange, x []byte) bool = typeis(rr.EndKey, *btpb.RowRange_EndKeyClosed) ? !bytesLess(as(rr.EndKey, *btpb.RowRange_EndKeyClosed).EndKeyClosed, x) : (typeis(rr.EndKey, *btpb.RowRange_EndKeyOpen) ? (len(as(rr.EndKey, *btpb.RowRange_EndKeyOpen).EndKeyOpen) == 0 || bytesLess(x, as(rr.EndKey, *btpb.RowRange_EndKeyOpen).EndKeyOpen)) : true)
+//@ spec inRR(rr *btpb.RowRange, x []byte) bool = rrStartOK(rr, x) && rrEndOK(rr, x)
+// the simple range produced for an API range / an explicit key
+//@ spec srStartIs(sr simpleRange, rr *btpb.RowRange) bool = typeis(rr.StartKey, *btpb.RowRange_StartKeyClosed) ? sr.start == as(rr.StartKey, *btpb.RowRange_StartKeyClosed).StartKeyClosed : (typeis(rr.StartKey, *btpb.RowRange_StartKeyOpen) ? sr.start == as(rr.StartKey, *btpb.RowRange_StartKeyOpen).StartKeyOpen + "\x00" : len(sr.start) == 0)
+//@ spec srEndIs(sr simpleRange, rr *btpb.RowRange) bool = typeis(rr.EndKey, *btpb.RowRange_EndKeyClosed) ? sr.end == as(rr.EndKey, *btpb.RowRange_EndKeyClosed).EndKeyClosed + "\x00" : (typeis(rr.EndKey, *btpb.RowRange_EndKeyOpen) ? sr.end == as(rr.EndKey, *btpb.RowRange_EndKeyOpen).EndKeyOpen : len(sr.end) == 0)
+//@ spec srIsKey(sr simpleRange, k []byte) bool = sr.start == k && sr.end == k + "\x00"
+
+//@ func mergeRowRanges
+//@   property C03
+//@   logical x []byte
+// (the request is not modified - frame obligations - so old(..) below is the state the caller sees before and after the call)
+//@   requires forall i :: 0 <= i < len(rrs) ==> rrs[i] != nil
+//@   ensures (exists i :: 0 <= i < len(result) && inSR(result[i], x)) ==> ((exists i :: 0 <= i < len(explicit) && x == old(explicit[i])) || (exists i :: 0 <= i < len(rrs) && old(inRR(rrs[i], x))))
+//@   ensures (exists i :: 0 <= i < len(explicit) && x == old(explicit[i])) ==> (exists i :: 0 <= i < len(result) && inSR(result[i], x))
+//@   ensures (exists i :: 0 <= i < len(rrs) && old(inRR(rrs[i], x))) ==> (exists i :: 0 <= i < len(result) && inSR(result[i], x))
+//@   ensures forall i, j :: 0 <= i < j < len(result) ==> !bytesLess(result[j].start, result[i].start)
+//@   ensures forall i, j :: 0 <= i < j < len(result) ==> len(result[i].end) > 0 && bytesLess(result[i].end, result[j].start)
+//@   ensures len(explicit) + len(rrs) > 0 ==> len(result) > 0
+//@   ensures len(result) == 0 || fresh(result)
+//@   loop 1 invariant frameOld(heap("F:bttest.simpleRange.start"), heap("F:bttest.simpleRange.end"))
+//@   loop 1 invariant len(srs) == idx1 + 1
+//@   loop 1 invariant isnil(srs) || fresh(srs)
+//@   loop 1 invariant forall i :: 0 <= i <= idx1 ==> srIsKey(srs[i], explicit[i])
+//@   loop 1 invariant forall i :: 0 <= i <= idx1 ==> (inSR(srs[i], x) <==> x == explicit[i])
+//@   loop 2 invariant frameOld(heap("F:bttest.simpleRange.start"), heap("F:bttest.simpleRange.end"))
+//@   loop 2 invariant len(srs) == len(explicit) + idx2 + 1
+//@   loop 2 invariant isnil(srs) || fresh(srs)
+//@   loop 2 invariant forall i :: 0 <= i < len(explicit) ==> srIsKey(srs[i], explicit[i])
+//@   loop 2 invariant forall i :: 0 <= i < len(explicit) ==> (inSR(srs[i], x) <==> x == explicit[i])
+//@   loop 2 invariant forall i :: 0 <= i <= idx2 ==> srStartIs(srs[len(explicit) + i], rrs[i]) && srEndIs(srs[len(explicit) + i], rrs[i])
+//@   loop 2 invariant forall i :: 0 <= i <= idx2 ==> (inSR(srs[len(explicit) + i], x) <==> inRR(rrs[i], x))
+//@   loop 2 invariant forall k :: len(explicit) <= k < len(srs) ==> (inSR(srs[k], x) <==> inRR(rrs[k - len(explicit)], x))
+
+// ---------------------------------------------------------------------------------------------
+// inmem.go: chunkBuilder
+// ---------------------------------------------------------------------------------------------
+
+//@ spec chunksOK(cs []*btpb.ReadRowsResponse_CellChunk) bool = forall k :: 0 <= k < len(cs) ==> cs[k] != nil
+// chunk c is the last chunk of a row
+//@ spec isCommit(c *btpb.ReadRowsResponse_CellChunk) bool = typeis(c.RowStatus, *btpb.ReadRowsResponse_CellChunk_CommitRow) && as(c.RowStatus, *btpb.ReadRowsResponse_CellChunk_CommitRow).CommitRow
+// chunk c carries the data of cell x
+//@ spec chunkOfCell(c *btpb.ReadRowsResponse_CellChunk, x *btpb.Cell) bool = c.TimestampMicros == x.TimestampMicros && c.Value == x.Value && c.Labels == x.Labels
+
+//@ func (cb *chunkBuilder) reset
+//@   property C03
+//@   modifies cb.chunks
+//@   ensures len(cb.chunks) == 0 && isnil(cb.chunks)
+
+//@ func (cb *chunkBuilder) add
+//@   property C03
+//@   requires rowOK(r)
+//@   requires famSep(r.Families)
+//@   requires chunksOK(cb.chunks)
+//@   modifies cb.chunks, elems(cb.chunks), r.Families, elems(r.Families), heap("F:bigtablepb.Family.Columns"), heap("T:*bigtablepb.Column")
+//@   ensures len(cb.chunks) >= old(len(cb.chunks))
+//@   ensures result == (len(cb.chunks) > old(len(cb.chunks)))
+//@   ensures chunksOK(cb.chunks)
+//@   ensures forall k :: 0 <= k < old(len(cb.chunks)) ==> cb.chunks[k] == old(cb.chunks[k])
+//@   ensures forall k :: old(len(cb.chunks)) <= k < len(cb.chunks) ==> fresh(cb.chunks[k])
+//@   ensures result ==> cb.chunks[old(len(cb.chunks))].RowKey == r.Key
+//@   ensures result ==> cb.chunks[old(len(cb.chunks))].FamilyName != nil && cb.chunks[old(len(cb.chunks))].Qualifier != nil
+//@   ensures forall k :: old(len(cb.chunks)) < k < len(cb.chunks) ==> isnil(cb.chunks[k].RowKey)
+//@   ensures forall k :: old(len(cb.chunks)) <= k < len(cb.chunks) - 1 ==> cb.chunks[k].RowStatus == nil
+//@   ensures result ==> isCommit(cb.chunks[len(cb.chunks) - 1])
+//@   ensures result <==> len(r.Families) > 0
+//@   ensures obj(cb.chunks) == old(obj(cb.chunks)) || fresh(cb.chunks)
+//@   ensures rowOK(r)
+//@   loop 1 invariant start == old(len(cb.chunks)) && len(cb.chunks) >= start
+//@   loop 1 invariant newRow == (len(cb.chunks) == start)
+//@   loop 1 invariant obj(cb.chunks) == old(obj(cb.chunks)) || fresh(cb.chunks)
+//@   loop 1 invariant forall k :: 0 <= k < start ==> cb.chunks[k] == old(cb.chunks[k])
+//@   loop 1 invariant forall k :: start <= k < len(cb.chunks) ==> fresh(cb.chunks[k])
+//@   loop 1 invariant forall k1, k2 :: start <= k1 < k2 < len(cb.chunks) ==> cb.chunks[k1] != cb.chunks[k2]
+//@   loop 1 invariant !newRow ==> cb.chunks[start].RowKey == r.Key && cb.chunks[start].FamilyName != nil && cb.chunks[start].Qualifier != nil
+//@   loop 1 invariant forall k :: start < k < len(cb.chunks) ==> isnil(cb.chunks[k].RowKey)
+//@   loop 1 invariant forall k :: start <= k < len(cb.chunks) ==> cb.chunks[k].RowStatus == nil
+//@   loop 1 invariant frameOld(heap("F:bigtablepb.ReadRowsResponse_CellChunk.RowKey"), heap("F:bigtablepb.ReadRowsResponse_CellChunk.FamilyName"), heap("F:bigtablepb.ReadRowsResponse_CellChunk.Qualifier"), heap("F:bigtablepb.ReadRowsResponse_CellChunk.TimestampMicros"), heap("F:bigtablepb.ReadRowsResponse_CellChunk.Labels"), heap("F:bigtablepb.ReadRowsResponse_CellChunk.Value"), heap("F:bigtablepb.ReadRowsResponse_CellChunk.RowStatus"), heap("F:wrappers.StringValue.Value"), heap("F:wrappers.BytesValue.Value"), heap("F:bigtablepb.ReadRowsResponse_CellChunk_CommitRow.CommitRow"))
+//@   loop 1 invariant forall q **btpb.ReadRowsResponse_CellChunk :: !fresh(q) && (obj(q) != old(obj(cb.chunks)) || old(obj(cb.chunks)) == 0) ==> deref(q) == old(deref(q))
+//@   loop 1 invariant forall p *chunkBuilder :: p != cb && !fresh(p) ==> p.chunks == old(p.chunks)
+//@   loop 1 invariant idx1 == -1 ==> newRow
+//@   loop 1 invariant idx1 >= 0 ==> !newRow
+//@   loop 2 invariant start == old(len(cb.chunks)) && len(cb.chunks) >= start
+//@   loop 2 invariant newRow == (len(cb.chunks) == start)
+//@   loop 2 invariant obj(cb.chunks) == old(obj(cb.chunks)) || fresh(cb.chunks)
+//@   loop 2 invariant forall k :: 0 <= k < start ==> cb.chunks[k] == old(cb.chunks[k])
+//@   loop 2 invariant forall k :: start <= k < len(cb.chunks) ==> fresh(cb.chunks[k])
+//@   loop 2 invariant forall k1, k2 :: start <= k1 < k2 < len(cb.chunks) ==> cb.chunks[k1] != cb.chunks[k2]
+//@   loop 2 invariant !newRow ==> cb.chunks[start].RowKey == r.Key && cb.chunks[start].FamilyName != nil && cb.chunks[start].Qualifier != nil
+//@   loop 2 invariant forall k :: start < k < len(cb.chunks) ==> isnil(cb.chunks[k].RowKey)
+//@   loop 2 invariant forall k :: start <= k < len(cb.chunks) ==> cb.chunks[k].RowStatus == nil
+//@   loop 2 invariant frameOld(heap("F:bigtablepb.ReadRowsResponse_CellChunk.RowKey"), heap("F:bigtablepb.ReadRowsResponse_CellChunk.FamilyName"), heap("F:bigtablepb.ReadRowsResponse_CellChunk.Qualifier"), heap("F:bigtablepb.ReadRowsResponse_CellChunk.TimestampMicros"), heap("F:bigtablepb.ReadRowsResponse_CellChunk.Labels"), heap("F:bigtablepb.ReadRowsResponse_CellChunk.Value"), heap("F:bigtablepb.ReadRowsResponse_CellChunk.RowStatus"), heap("F:wrappers.StringValue.Value"), heap("F:wrappers.BytesValue.Value"), heap("F:bigtablepb.ReadRowsResponse_CellChunk_CommitRow.CommitRow"))
+//@   loop 2 invariant forall q **btpb.ReadRowsResponse_CellChunk :: !fresh(q) && (obj(q) != old(obj(cb.chunks)) || old(obj(cb.chunks)) == 0) ==> deref(q) == old(deref(q))
+//@   loop 2 invariant forall p *chunkBuilder :: p != cb && !fresh(p) ==> p.chunks == old(p.chunks)
+//@   loop 2 invariant 0 <= idx1 + 1 < len(r.Families) && fam == r.Families[idx1 + 1]
+//@   loop 2 invariant newRow ==> newFam
+//@   loop 2 invariant idx2 >= 0 ==> !newRow
+//@   loop 3 invariant start == old(len(cb.chunks)) && len(cb.chunks) >= start
+//@   loop 3 invariant newRow == (len(cb.chunks) == start)
+//@   loop 3 invariant obj(cb.chunks) == old(obj(cb.chunks)) || fresh(cb.chunks)
+//@   loop 3 invariant forall k :: 0 <= k < start ==> cb.chunks[k] == old(cb.chunks[k])
+//@   loop 3 invariant forall k :: start <= k < len(cb.chunks) ==> fresh(cb.chunks[k])
+//@   loop 3 invariant forall k1, k2 :: start <= k1 < k2 < len(cb.chunks) ==> cb.chunks[k1] != cb.chunks[k2]
+//@   loop 3 invariant !newRow ==> cb.chunks[start].RowKey == r.Key && cb.chunks[start].FamilyName != nil && cb.chunks[start].Qualifier != nil
+//@   loop 3 invariant forall k :: start < k < len(cb.chunks) ==> isnil(cb.chunks[k].RowKey)
+//@   loop 3 invariant forall k :: start <= k < len(cb.chunks) ==> cb.chunks[k].RowStatus == nil
+//@   loop 3 invariant frameOld(heap("F:bigtablepb.ReadRowsResponse_CellChunk.RowKey"), heap("F:bigtablepb.ReadRowsResponse_CellChunk.FamilyName"), heap("F:bigtablepb.ReadRowsResponse_CellChunk.Qualifier"), heap("F:bigtablepb.ReadRowsResponse_CellChunk.TimestampMicros"), heap("F:bigtablepb.ReadRowsResponse_CellChunk.Labels"), heap("F:bigtablepb.ReadRowsResponse_CellChunk.Value"), heap("F:bigtablepb.ReadRowsResponse_CellChunk.RowStatus"), heap("F:wrappers.StringValue.Value"), heap("F:wrappers.BytesValue.Value"), heap("F:bigtablepb.ReadRowsResponse_CellChunk_CommitRow.CommitRow"))
+//@   loop 3 invariant forall q **btpb.ReadRowsResponse_CellChunk :: !fresh(q) && (obj(q) != old(obj(cb.chunks)) || old(obj(cb.chunks)) == 0) ==> deref(q) == old(deref(q))
+//@   loop 3 invariant forall p *chunkBuilder :: p != cb && !fresh(p) ==> p.chunks == old(p.chunks)
+//@   loop 3 invariant 0 <= idx1 + 1 < len(r.Families) && fam == r.Families[idx1 + 1]
+//@   loop 3 invariant 0 <= idx2 + 1 < len(fam.Columns) && col == fam.Columns[idx2 + 1] && cells == col.Cells
+//@   loop 3 invariant newRow ==> newFam
+//@   loop 3 invariant newFam ==> newCol
+//@   loop 3 invariant idx3 >= 0 ==> !newRow
+
+// ---------------------------------------------------------------------------------------------
+// inmem.go: ReadRows / SampleRowKeys
+// ---------------------------------------------------------------------------------------------
+
+//@ func (s *server) ReadRows
+//@   property C03
+//@   logical x []byte
+//@   requires req != nil
+//@   requires stream != nil
+//@   modifies s.tables[req.TableName].lastReadNanos
+//@   ensures !old(req.TableName in s.tables) ==> result != nil && uf_grpcCode(result) == codes.NotFound
+//@   ensures old(req.TableName in s.tables) && old(req.Rows != nil && (exists i :: 0 <= i < len(req.Rows.RowRanges) && rrBad(req.Rows.RowRanges[i]))) ==> result != nil && uf_grpcCode(result) == codes.InvalidArgument
+//@   loop 1 invariant held(tbl.mu) == 1
+//@   loop 1 invariant err == nil
+//@   loop 1 invariant chunksOK(cb.chunks)
+//@   loop 1 invariant obj(cb.chunks) == 0 || fresh(cb.chunks)
+//@   loop 1 invariant frameOld(heap("T:error"))
+//@   loop 1 invariant count >= 0 && (limit > 0 ==> count <= limit)
+//@   loop 1 invariant len(cb.chunks) > 0 ==> count > 0
+//@   callback addRow invariant held(tbl.mu) == 1
+//@   callback addRow invariant chunksOK(cb.chunks)
+//@   callback addRow invariant obj(cb.chunks) == 0 || fresh(cb.chunks)
+//@   callback addRow invariant frameOld(heap("T:error"))
+//@   callback addRow invariant count >= 0 && (limit > 0 ==> count <= limit)
+//@   callback addRow invariant len(cb.chunks) > 0 ==> count > 0
+
+//@ func (s *server) SampleRowKeys
+//@   property C03
+//@   requires req != nil
+//@   requires stream != nil
+//@   ensures !old(req.TableName in s.tables) ==> result != nil && uf_grpcCode(result) == codes.NotFound
+//@   callback $1 invariant held(tbl.mu) == 1
+//@   callback $1 invariant offset >= 0
+//@   callback $1 invariant lastRow == nil || rowOK(lastRow)
+//@   callback $1 invariant frameOld(heap("T:error"), heap("T:int64"), heap("T:*bigtablepb.Row"), heap("F:bigtablepb.SampleRowKeysResponse.OffsetBytes"), heap("F:bigtablepb.SampleRowKeysResponse.RowKey"))
